@@ -13,7 +13,7 @@ import (
 )
 
 // Version is bumped whenever generation changes; case lists record it.
-const Version = "g9"
+const Version = "g10"
 
 // Region of a case (chosen by index so that budgets per region are fixed).
 type Region int
@@ -63,6 +63,7 @@ var Exemplars = []string{
 	`^abc`, `^(\w+)-(\d+)$`, `^\d+$`, `a|b`, `[a-z]*`, `(a|b|c)+`, `([a-z])+[0-9]`, `(\w{2,8})+`,
 	`\w+`, `[a-z]+`, `\d+`, `[\w]+`,
 	`[a-zA-Z]+[0-9]+`, `\d+\s+\w+`, `[a-z]+[a-z]+[0-9]`,
+	`[ax]+[by]+[ax]+[cz]+`, `[a-c]+[0-9]+[a-c]+x+`, `\w+[0-9]+\w+-+`, `[ab]+[bc]+[ab]+[cd]+`, `[a-c]+[b-d]+[c-e]+`,
 	`^(\d+|UUID|hex32)`, `^(foo|bar)`,
 	`foo|bar|baz`, `(?i)hello`,
 	`\d+\.\d+\.\d+\.\d+`, `[0-9]+\.[0-9]+`,
@@ -563,6 +564,16 @@ func Haystacks(r *rand.Rand, re *syntax.Regexp, region Region, k int) [][]byte {
 				}
 			}
 			h = append(noise(r, alpha, r.IntN(5)), h...)
+		case m < 16: // restart: a proper prefix of a sample directly followed by a whole sample (a failed attempt
+			// whose consumed region contains the start of the real match), e.g. "ab"+"abac" for [ax]+[by]+[ax]+[cz]+
+			s := Sample(r, re, region)
+			if len(s) > 1 {
+				for q := r.IntN(3); q >= 0; q-- {
+					h = append(h, s[:1+r.IntN(len(s)-1)]...)
+				}
+			}
+			h = append(h, s...)
+			h = append(h, noise(r, alpha, r.IntN(3))...)
 		case m < 17: // repetition of sample minus last, then sample
 			s := Sample(r, re, region)
 			if len(s) > 1 {
